@@ -64,6 +64,9 @@ macro_rules! drivers {
             "mutex" => $f::<fiv::hist::mutex::MutexDriver>($($arg),*),
             "semaphore" => $f::<fiv::hist::semaphore::SemDriver>($($arg),*),
             "event" => $f::<fiv::hist::event::EventDriver>($($arg),*),
+            "mpmc" => $f::<fiv::hist::mpmc::MpmcDriver>($($arg),*),
+            "mpmc-bval" => $f::<fiv::hist::mpmc::MpmcBvalDriver>($($arg),*),
+            "state" => $f::<fiv::hist::state::StateDriver>($($arg),*),
             "oneshot" => $f::<fiv::hist::oneshot::OneshotDriver>($($arg),*),
             "timer" => $f::<fiv::hist::timer::TimerDriver>($($arg),*),
             other => {
